@@ -346,3 +346,22 @@ def _(root):
             "        arg_spec = _argspec(func)\n")
     sub_all(root, ('_inspect.py',), "            arg_kwdefault = getattr(arg_spec, 'kwonlydefaults') or {}\n",
             "            arg_kwdefault = dict(getattr(arg_spec, 'kwonlydefaults') or {})\n")
+
+
+@V('sqlite-setitem-replace-with-rollback')
+def _(root):
+    """property-preserving: the sqlite archive replaces the row of an existing key inside one transaction and rolls back when the insert fails"""
+    sub_all(root, ('_archives.py',), "          sql = \"insert into %s values(?,?)\" % self.__state__['id']\n          self._engine.execute(sql, (key,value))\n          self._conn.commit()\n          return",
+            "          table = self.__state__['id']\n          try:\n              self._engine.execute(\"delete from %s where argstr = ?\" % table, (key,))\n              self._engine.execute(\"insert into %s values(?,?)\" % table, (key,value))\n          except:\n              self._conn.rollback()\n              raise\n          self._conn.commit()\n          return")
+
+
+@V('cache-setstate-default-when-absent')
+def _(root):
+    """property-preserving: a custom __setstate__ that defaults the archive attributes only when they are absent from the pickled state"""
+    sub_all(root, ('_archives.py',), "    def __repr__(self):\n        archive = self.archive.__class__.__name__",
+            "    def __setstate__(self, state):\n        self.__dict__.update(state)\n        self.__swap__ = state.get('__swap__', null_archive())\n        if '__archive__' not in state:\n            self.__archive__ = null_archive()\n    def __repr__(self):\n        archive = self.archive.__class__.__name__")
+
+
+@V('new-default-maxsize-100')
+def _(root):
+    sub_all(root, CACHES, "kwds.get('maxsize', -1)", "kwds.get('maxsize', 100)", count_min=8)
